@@ -388,6 +388,8 @@ class _BaseODE:
             rb = self._ensure_index_type(rb)
             vec = np.zeros(self.n, bool)
             vec[rb] = True
+            # list `rb` in ascending order, as `_rb` is:
+            rb = np.nonzero(vec)[0]
             _rb = np.nonzero(vec[self.nonrf])[0]
         _el = np.ones(self.ksize, bool)
         _el[_rb] = False
